@@ -647,15 +647,16 @@ class Harness:
 
         return sl
 
-    def on_metric(self, event, attempt, sleep_s, tags):
-        self.cur.trace.append(("metric", event, attempt, sleep_s, _tags(tags)))
+    def on_metric(self, event, attempt, sleep_s, tags, rec=None):
+        # `rec`: the call this hook object was handed to (a hook kept by the library beyond its call writes into THAT call's record)
+        (rec or self.cur).trace.append(("metric", event, attempt, sleep_s, _tags(tags)))
         if event == "budget_exhausted" and self.budget is not None:
             # ground truth for "the window really is full", however the engine learnt it (refused consume(), remaining(), ...)
-            self.cur.trace.append(("budget_level", Budget.remaining(self.budget), self.now()))
+            (rec or self.cur).trace.append(("budget_level", Budget.remaining(self.budget), self.now()))
         self.hook_fault("metric")
 
-    def on_log(self, event, fields):
-        self.cur.trace.append(("log", event, _tags(fields)))
+    def on_log(self, event, fields, rec=None):
+        (rec or self.cur).trace.append(("log", event, _tags(fields)))
         self.hook_fault("log")
 
     def mk_attempt_hook(self, which, place):
@@ -841,8 +842,13 @@ class Harness:
         e = rec.env
         ckw = dict(self.call_kw)
         if not self.sc.get("no_hooks"):
-            ckw["on_metric"] = self.on_metric
-            ckw["on_log"] = self.on_log
+            if self.kind == "deco":
+                ckw["on_metric"] = self.on_metric
+                ckw["on_log"] = self.on_log
+            else:
+                # a fresh pair of hook objects for every call, each tied to its own call's record
+                ckw["on_metric"] = lambda event, attempt, sleep_s, tags, _r=rec: self.on_metric(event, attempt, sleep_s, tags, _r)
+                ckw["on_log"] = lambda event, fields, _r=rec: self.on_log(event, fields, _r)
         if self.cfg.get("operation"):
             ckw["operation"] = self.cfg["operation"]
         if self.use_abort:
@@ -887,6 +893,14 @@ class Harness:
         self.world.trace = rec.trace
         return rec
 
+    def _timeline_for(self, tl):
+        if tl == "objshared":
+            # ONE caller-supplied RetryTimeline reused for every call of the scenario (it accumulates)
+            if getattr(self, "_shared_timeline", None) is None:
+                self._shared_timeline = RetryTimeline()
+            return self._shared_timeline
+        return RetryTimeline()
+
     def _deco_build(self, ckw, fn):
         kw = dict(self.retry_kw)
         return retry_decorator(**kw, **ckw)(fn)
@@ -902,8 +916,9 @@ class Harness:
         try:
             if self.meth == "execute":
                 tl = self.sc.get("timeline")
-                if tl == "obj":
-                    rec.timeline_obj = RetryTimeline()
+                if tl in ("obj", "objshared"):
+                    rec.timeline_obj = self._timeline_for(tl)
+                    rec.objs["tl_before"] = len(rec.timeline_obj.events)
                     ckw["capture_timeline"] = rec.timeline_obj
                 elif tl:
                     ckw["capture_timeline"] = True
@@ -926,6 +941,8 @@ class Harness:
         except BaseException as x:  # noqa: BLE001 - the harness observes everything
             rec.final = ("raise", x)
         rec.counts = dict(self.n)
+        if rec.timeline_obj is not None:
+            rec.objs["tl_after"] = len(rec.timeline_obj.events)
         self.cur_done = rec
         return rec
 
@@ -947,8 +964,9 @@ class Harness:
 
         if self.meth == "execute":
             tl = self.sc.get("timeline")
-            if tl == "obj":
-                rec.timeline_obj = RetryTimeline()
+            if tl in ("obj", "objshared"):
+                rec.timeline_obj = self._timeline_for(tl)
+                rec.objs["tl_before"] = len(rec.timeline_obj.events)
                 ckw["capture_timeline"] = rec.timeline_obj
             elif tl:
                 ckw["capture_timeline"] = True
@@ -981,6 +999,8 @@ class Harness:
         else:
             rec.final = drive_loop(c)
         rec.counts = dict(self.n)
+        if rec.timeline_obj is not None:
+            rec.objs["tl_after"] = len(rec.timeline_obj.events)
         return rec
 
 
